@@ -45,6 +45,7 @@ def _on_alarm(signum, frame):
 
 
 STEP_WATCHDOG_S = 20.0
+SHRINK_WATCHDOG_S = 5.0
 
 
 def call(fn, *a):
@@ -87,7 +88,7 @@ class Result:
         self.unjudged = {}
 
 
-def simulate(prop, cfg, ops=None, known=(), digest=False, want_trace=False, states=True):
+def simulate(prop, cfg, ops=None, known=(), digest=False, want_trace=False, states=True, watchdog=None):
     """Executes one run.  With ops=None the operation list is generated from
     cfg['seed']; otherwise ops is replayed literally (no PRNG draw decides
     anything except the clock_seq sub-PRNG, which is seeded from cfg)."""
@@ -121,7 +122,9 @@ def simulate(prop, cfg, ops=None, known=(), digest=False, want_trace=False, stat
     nsteps = cfg["steps"] if ops is None else len(ops)
     i = 0
     try:
+        c = out = None
         while i < nsteps:
+            c = out = None          # nothing of the previous step keeps node objects alive
             V = View(W, pre)
             if ops is None:
                 op = propose(rng, cfg, weights, W, pre, V)
@@ -143,7 +146,7 @@ def simulate(prop, cfg, ops=None, known=(), digest=False, want_trace=False, stat
             if want_alias:
                 state["alias_pre"] = W.alias_partition()
             nh = len(W.nodes)
-            signal.setitimer(signal.ITIMER_REAL, STEP_WATCHDOG_S)
+            signal.setitimer(signal.ITIMER_REAL, watchdog or STEP_WATCHDOG_S)
             try:
                 out = call(kobj.run, W, R, op)
             except HangError:
@@ -224,7 +227,8 @@ def run_one(prop, base_seed, index, known=(), digest=False, want_trace=False):
 
 # ------------------------------------------------------------------ shrinking
 def _fails(prop, cfg, ops, key, known):
-    r = simulate(prop, cfg, ops, known, states=False)
+    # while shrinking, a hang that was already seen once need not be waited for as long
+    r = simulate(prop, cfg, ops, known, states=False, watchdog=SHRINK_WATCHDOG_S if key[1] == "hang" else None)
     return r.violation is not None and r.violation.key() == key, r
 
 
